@@ -214,6 +214,52 @@ func (sc *scenario) close() {
 	}
 }
 
+// heightOf maps every hash of the universe to its height.
+func (sc *scenario) heightOf() map[chainhash.Hash]int32 {
+	m := map[chainhash.Hash]int32{sc.u.Genesis: 0}
+	for _, b := range sc.honest {
+		m[b.Hash] = b.Height
+	}
+	for _, f := range sc.forks {
+		for _, b := range f {
+			m[b.Hash] = b.Height
+		}
+	}
+	for _, n := range sc.nodes {
+		for _, b := range n.Chain() {
+			m[b.Hash] = b.Height
+		}
+	}
+	return m
+}
+
+// checkStops: every getheaders carries the zero stop or the hash of a checkpoint that still lies ahead of the
+// position it asks from ("a matching header advances sync to the next checkpoint and, after the last one, to
+// unbounded requests").
+func checkStops(nodes []*simnet.Node, cps []chaincfg.Checkpoint, heights map[chainhash.Hash]int32) error {
+	var zero chainhash.Hash
+	cpHeight := map[chainhash.Hash]int32{}
+	for _, c := range cps {
+		cpHeight[*c.Hash] = c.Height
+	}
+	for i, n := range nodes {
+		for _, r := range n.Received() {
+			if r.Cmd != "getheaders" || r.Stop == zero || len(r.Locator) == 0 {
+				continue
+			}
+			ch, isCP := cpHeight[r.Stop]
+			if !isCP {
+				continue // e.g. the experimental engine's inv-triggered request with the announced hash as stop
+			}
+			from, known := heights[r.Locator[0]]
+			if known && from >= ch {
+				return fmt.Errorf("node %d received a getheaders that starts at height %d and stops at the checkpoint of height %d, which is already behind it: sync did not advance to the next checkpoint", i, from, ch)
+			}
+		}
+	}
+	return nil
+}
+
 func (sc *scenario) tipHash() string {
 	t := sc.s.Services.Headers.GetTip()
 	if t == nil {
@@ -398,6 +444,9 @@ func execC06(sc *scenario) (*stats.Case, error) {
 	rows, _ := sc.s.Headers()
 	if err := checkStructure(rows); err != nil {
 		return nil, fmt.Errorf("after sync: %w", err)
+	}
+	if err := checkStops(sc.nodes, sc.cps, sc.heightOf()); err != nil {
+		return nil, err
 	}
 	// wire-level locator checks (C13): every getheaders the nodes received
 	roundTrips := 0
